@@ -116,7 +116,8 @@ impl<'a> Ref<'a> {
                     }
                 }
             }
-            return Err(Budget);
+            // locally unknown (not a global give-up): another clause of an ancestor may still decide it
+            return Ok(Tv::U);
         }
         if env.contains(&key) {
             self.used_env = true;
